@@ -580,6 +580,47 @@ def c10(run):
         if os.path.exists(os.path.join(out, "c10_replace.ndjson")) else 0
 
 
+@check("C07")
+def c07(run):
+    run.rule = ("histories = TLC-generated: every prefix of <= 2 disturbing calls (constructions of the target's "
+                "operands, complements and super-terms in every order; char_derivative, compile, is_empty_re, "
+                "iter_derivatives) followed by one of 140 target constructions sensitive to id order; the harness then "
+                "re-issues every earlier construction and the target, compares identities, queries membership and "
+                "emptiness; each history runs on a fresh ReManager, on the thread-local manager in a fresh thread and "
+                "on a thread-local manager that served earlier histories (quick: a seeded 1/8 sample of the 38220 "
+                "histories; thorough: all, plus prefixes of 3 by TLC simulation); plus long seeded random histories "
+                "(60-150 calls on one manager); non-trivial = distinct history with >= 8 constructor calls")
+    run.assumptions = ["identities are addresses of the returned &'static RE, renumbered 1,2,3,... by the harness",
+                       "language independence of history is checked on the nullable flag, on membership of 17 words and "
+                       "on exact emptiness per history (the exact product check of C01 also runs on dirty managers)"]
+    scen = os.path.join(run.workdir, "manager_scen.ndjson")
+    full = run.tier == "thorough"
+    run.generate("MC_Manager", "MC_Manager.cfg", scen, timeout=1200,
+                 note="all histories prefix(<=2 of 16 disturbing calls) . target(140)")
+    if full:
+        scen3 = os.path.join(run.workdir, "manager_scen3.ndjson")
+        run.generate("MC_Manager", "MC_Manager3.cfg", scen3, timeout=1200, simulate="num=40",
+                     note="random prefixes of length 3 (TLC simulation), all targets each")
+        with open(scen, "a") as f, open(scen3) as g:
+            f.write(g.read())
+    else:
+        s = run.seed % 8
+        total, kept = _sample(scen, lambda k, r: k % 8 == s)
+        run.extra["quick_sample"] = "%d of %d generated histories" % (kept, total)
+    out, info = _drive(run, "manager", verb="replay", sub="replay", extra=["--scen", scen], timeout=3000)
+    out2, info2 = _drive(run, "manager", sub="random")
+    nmk = lambda r: sum(1 for e in r.get("events", []) if e.get("k") == "mk")
+    need = {"manager_fresh": lambda r: r.get("via") == "manager-fresh", "smt_fresh": lambda r: r.get("via") == "smt-fresh",
+            "smt_dirty": lambda r: r.get("via") == "smt-dirty",
+            "reissue_hits": lambda r: nmk(r) >= 8,
+            "complement": lambda r: any(e.get("api") in ("complement", "re_comp") for e in r.get("events", []))}
+    run.validate("manager_hist", os.path.join(out, "manager_hist.ndjson"), "Trace_Manager", "Trace_Manager.cfg",
+                 ["C07:"], workers=workers(run), nontrivial=lambda r: nmk(r) >= 8, need=need, timeout=3000, heap="10g")
+    run.validate("manager_random", os.path.join(out2, "manager_random.ndjson"), "Trace_Manager", "Trace_Manager.cfg",
+                 ["C07:"], workers=workers(run), nontrivial=lambda r: nmk(r) >= 8, timeout=3000)
+    run.extra["driver"] = [info, info2]
+
+
 # ------------------------------------------------------------------------------------ housekeeping
 
 def sany():
